@@ -7,6 +7,7 @@ import (
 	"encoding/json"
 	"fmt"
 	"os"
+	"strings"
 	"testing"
 
 	"pgregory.net/rapid"
@@ -14,6 +15,7 @@ import (
 	"github.com/cossacklabs/acra/acrablock"
 	"github.com/cossacklabs/acra/acrastruct"
 	"github.com/cossacklabs/acra/crypto"
+	"github.com/cossacklabs/acra/decryptor/base"
 	encryptor "github.com/cossacklabs/acra/encryptor/base"
 	"github.com/cossacklabs/acra/encryptor/base/config"
 	"github.com/cossacklabs/acra/masking"
@@ -27,6 +29,18 @@ import (
 var R = hx.New("C11")
 
 func TestMain(m *testing.M) { os.Exit(R.Main(m)) }
+
+// addKnown records a violation of a class that is a known finding; with VERIF_ASSUME_KNOWN=<sig>,<sig> (a
+// development aid: search behind a finding before it is listed in known_findings.json) the class is only counted.
+func addKnown(vs *hx.Vs, sig, format string, args ...any) {
+	for _, s := range strings.Split(os.Getenv("VERIF_ASSUME_KNOWN"), ",") {
+		if s == sig {
+			R.Class("assumed-known", sig)
+			return
+		}
+	}
+	vs.Add(sig, format, args...)
+}
 
 // ---------------------------------------------------------------------------------------------
 // values
@@ -230,39 +244,76 @@ func openContainer(w *fix.World, id []byte, kind string, b []byte) ([]byte, erro
 	return nil, fmt.Errorf("envelope id %#x for a column configured as %s", b[11], kind)
 }
 
-// looksProtected: the bytes already are a protected value (whole container or bare envelope): acra stores
-// such input as it is (application-side encryption, property C01's pass-through clause).
-func looksProtected(w *fix.World, b []byte) bool {
-	if w.Reg.MatchDataSignature(b) {
+// bareEnvelope: b is exactly one bare AcraStruct or AcraBlock (structure only).
+func bareEnvelope(b []byte) bool {
+	if len(b) >= 145 && bytes.HasPrefix(b, []byte(`""""""""`)) && binary.LittleEndian.Uint64(b[137:145]) == uint64(len(b)-145) {
 		return true
 	}
-	for _, id := range []byte{crypto.AcraStructEnvelopeID, crypto.AcraBlockEnvelopeID} {
-		if h, err := crypto.GetHandlerByEnvelopeID(id); err == nil && h.MatchDataSignature(b) {
+	if n, _, err := acrablock.ExtractAcraBlockFromData(b); err == nil && n == len(b) {
+		return true
+	}
+	return false
+}
+
+// looksProtected: the bytes already are a protected value - exactly one serialized container or exactly one
+// bare envelope, nothing in front of it or behind it: acra stores such input as it is (application-side
+// encryption, property C01's pass-through clause).
+func looksProtected(w *fix.World, b []byte) bool {
+	if len(b) > 12 && bytes.HasPrefix(b, []byte("%%%")) && binary.LittleEndian.Uint64(b[3:11]) == uint64(len(b)) &&
+		(b[11] == crypto.AcraStructEnvelopeID || b[11] == crypto.AcraBlockEnvelopeID) {
+		return bareEnvelope(b[12:])
+	}
+	return bareEnvelope(b)
+}
+
+// envelopePrefix: b starts with a whole serialized container or a whole bare AcraBlock and goes on after it.
+func envelopePrefix(b []byte) bool {
+	if len(b) > 12 && bytes.HasPrefix(b, []byte("%%%")) && (b[11] == crypto.AcraStructEnvelopeID || b[11] == crypto.AcraBlockEnvelopeID) {
+		if ln := binary.LittleEndian.Uint64(b[3:11]); ln > 12 && ln < uint64(len(b)) && bareEnvelope(b[12:ln]) {
+			return true
+		}
+	}
+	if n, _, err := acrablock.ExtractAcraBlockFromData(b); err == nil && n < len(b) {
+		return true
+	}
+	return false
+}
+
+// holdsEnvelopeAt: b starts with a well-formed serialized container or a well-formed bare envelope.
+func holdsEnvelopeAt(b []byte) bool {
+	if len(b) > 12 && b[0] == '%' && b[1] == '%' && b[2] == '%' && (b[11] == crypto.AcraStructEnvelopeID || b[11] == crypto.AcraBlockEnvelopeID) {
+		ln := binary.LittleEndian.Uint64(b[3:11])
+		if ln >= 12 && ln <= uint64(len(b)) {
+			return true
+		}
+	}
+	if len(b) >= 145 && bytes.HasPrefix(b, []byte(`""""""""`)) {
+		if dl := binary.LittleEndian.Uint64(b[137:145]); dl <= uint64(len(b)-145) {
+			return true
+		}
+	}
+	if len(b) >= 18 && bytes.HasPrefix(b, []byte(`""""`)) {
+		if _, _, err := acrablock.ExtractAcraBlockFromData(b); err == nil {
 			return true
 		}
 	}
 	return false
 }
 
-// holdsEnvelope: some offset of b starts a well-formed serialized container or a well-formed bare envelope.
-func holdsEnvelope(b []byte) bool {
-	for i := 0; i < len(b); i++ {
-		if b[i] == '%' && i+12 < len(b) && b[i+1] == '%' && b[i+2] == '%' && (b[i+11] == crypto.AcraStructEnvelopeID || b[i+11] == crypto.AcraBlockEnvelopeID) {
-			ln := binary.LittleEndian.Uint64(b[i+3 : i+11])
-			if ln >= 12 && ln <= uint64(len(b)-i) {
-				return true
-			}
-		}
-		if b[i] == '"' && bytes.HasPrefix(b[i:], []byte(`""""""""`)) && len(b)-i >= 145 {
-			dl := binary.LittleEndian.Uint64(b[i+137 : i+145])
-			if dl <= uint64(len(b)-i-145) {
-				return true
-			}
-		}
-		if b[i] == '"' && bytes.HasPrefix(b[i:], []byte(`""""`)) && len(b)-i >= 18 {
-			if _, _, err := acrablock.ExtractAcraBlockFromData(b[i:]); err == nil {
-				return true
-			}
+// envelopeStartsInWindow: some offset inside the clear window of the stored value starts a well-formed
+// serialized container or bare envelope (possibly reaching beyond the window). The read chain cannot know
+// where the window ends and treats it as an envelope.
+func envelopeStartsInWindow(stored []byte, window int, side string) bool {
+	from, to := 0, window
+	if side != "left" {
+		from, to = len(stored)-window, len(stored)
+	}
+	if window <= 0 || from < 0 || to > len(stored) {
+		return false
+	}
+	for i := from; i < to; i++ {
+		if holdsEnvelopeAt(stored[i:]) {
+			return true
 		}
 	}
 	return false
@@ -336,7 +387,9 @@ func storedForm(vs *hx.Vs, w *fix.World, layer string, value, stored []byte, win
 	}
 	plain, err := openContainer(w, w.Alice, envelope, env)
 	if err != nil {
-		if bytes.Equal(env, hidden) {
+		if bytes.Equal(env, hidden) && envelopePrefix(hidden) {
+			addKnown(vs, "envelope-then-plaintext-stored-in-clear:"+layer, "the part outside the window (%d bytes) starts with a whole envelope followed by other bytes and is stored in clear as if it were an already protected value (window %d of %d, side %s)", len(hidden), window, len(value), side)
+		} else if bytes.Equal(env, hidden) {
 			vs.Add("stored-in-clear:"+layer, "the part outside the window (%d bytes) is stored in clear (window %d of %d, side %s)", len(hidden), window, len(value), side)
 		} else {
 			vs.Add("stored-form:"+layer, "the protected part (%d bytes) is not one %s container for the owner: %v (window %d of %d, side %s)", len(env), envelope, err, window, len(value), side)
@@ -414,13 +467,16 @@ func CheckComponent(c Case) (vs hx.Vs, nontrivial bool, classes []string) {
 	if passthrough {
 		classes = append(classes, "hidden-part-already-protected")
 	}
-	// an envelope-like piece inside the clear window is looked at by the read chain as well (it cannot know
-	// where the window ends); what it does with it is not the masking property's business
-	if holdsEnvelope(win) {
-		classes = append(classes, "window-holds-envelope")
-		return vs, false, classes
+	// an envelope-shaped piece that starts inside the clear window is taken for an envelope by the read chain
+	// (it cannot know where the window ends): known finding, class excluded from the exact oracles below
+	inWindow := envelopeStartsInWindow(stored, len(win), c.Side)
+	if inWindow {
+		classes = append(classes, "window-starts-envelope")
 	}
 
+	if env != nil {
+		processorContract(&vs, setting, c.Pattern, env, hidden)
+	}
 	reader := []byte(c.Reader)
 	var out []byte
 	var rerr error
@@ -435,7 +491,9 @@ func CheckComponent(c Case) (vs hx.Vs, nontrivial bool, classes []string) {
 		if passthrough {
 			return // what an application-side envelope reveals to is C01's matter
 		}
-		if !bytes.Equal(out, value) {
+		if !bytes.Equal(out, value) && inWindow {
+			addKnown(&vs, "window-envelope-masked:component", "owner wrote %d bytes and got %d bytes back: an envelope-shaped piece starts inside the clear window (window %d, side %s, pattern %q)", len(value), len(out), window, c.Side, c.Pattern)
+		} else if !bytes.Equal(out, value) {
 			vs.Add("owner-read-differs:component", "owner got %d bytes %.40x, wrote %d bytes %.40x (window %d, side %s)", len(out), out, len(value), value, window, c.Side)
 		}
 		return
@@ -446,19 +504,74 @@ func CheckComponent(c Case) (vs hx.Vs, nontrivial bool, classes []string) {
 	}
 	want := join(win, []byte(c.Pattern), c.Side)
 	if len(hidden) > 0 {
-		if at, found := leak(out, hidden, want, 4); found {
+		// bytes that also occur in the stored envelope say nothing about the plaintext (envelope headers repeat
+		// when the hidden part itself holds an envelope); a ciphertext leak is looked for separately
+		if at, found := leak(out, hidden, append(append([]byte{}, want...), env...), 4); found {
 			vs.Add("hidden-plaintext-leaked:component", "%s received 4 bytes of the hidden part (offset %d of %d): output %.60q", c.Reader, at, len(hidden), out)
 		}
 	}
 	if env != nil {
-		if at, found := leak(out, env, want, 8); found {
+		if at, found := leak(out, env, want, 8); found && inWindow {
+			addKnown(&vs, "window-envelope-masked:component", "%s received 8 bytes of the stored envelope (offset %d of %d): an envelope-shaped piece starts inside the clear window (window %d, side %s, pattern %q)", c.Reader, at, len(env), window, c.Side, c.Pattern)
+		} else if found {
 			vs.Add("ciphertext-leaked:component", "%s received 8 bytes of the stored envelope (offset %d of %d)", c.Reader, at, len(env))
 		}
 	}
-	if !bytes.Equal(out, want) {
+	if !bytes.Equal(out, want) && inWindow {
+		addKnown(&vs, "window-envelope-masked:component", "%s got %d bytes, window||pattern has %d: an envelope-shaped piece starts inside the clear window (window %d, side %s, pattern %q)", c.Reader, len(out), len(want), window, c.Side, c.Pattern)
+	} else if !bytes.Equal(out, want) {
 		vs.Add("masked-read-differs:component", "%s got %d bytes %.60q, want window||pattern = %d bytes %.60q (window %d of %d, side %s)", c.Reader, len(out), out, len(want), want, window, len(value), c.Side)
 	}
 	return
+}
+
+// stubDecryptor stands for the decrypting processor behind masking.Processor: it fails, hands the data back
+// unchanged (what a processor does that finds nothing it can decrypt) or returns a plaintext.
+type stubDecryptor struct {
+	mode  string
+	plain []byte
+}
+
+func (s stubDecryptor) Process(data []byte, _ *base.DataProcessorContext) ([]byte, error) {
+	switch s.mode {
+	case "error":
+		return nil, fmt.Errorf("cannot decrypt")
+	case "error-with-data":
+		return data, fmt.Errorf("cannot decrypt")
+	case "unchanged":
+		return data, nil
+	}
+	return s.plain, nil
+}
+
+func (s stubDecryptor) MatchDataSignature([]byte) bool { return true }
+
+// processorContract: masking.Processor replaces what its decryptor could not turn into plaintext - error or
+// data handed back unchanged - by the pattern, returns the plaintext otherwise, and without a masking
+// setting in the context is transparent.
+func processorContract(vs *hx.Vs, setting config.ColumnEncryptionSetting, pattern string, container, plain []byte) {
+	for _, mode := range []string{"error", "error-with-data", "unchanged", "plain"} {
+		proc, err := masking.NewProcessor(stubDecryptor{mode, plain})
+		if err != nil {
+			vs.Add("harness:processor", "%v", err)
+			return
+		}
+		ctx := &base.DataProcessorContext{Context: encryptor.NewContextWithEncryptionSetting(fix.Ctx([]byte("carol")), setting)}
+		var out []byte
+		var perr error
+		if hx.Guard(vs, "masking.Processor", func() { out, perr = proc.Process(append([]byte(nil), container...), ctx) }) {
+			return
+		}
+		if mode == "plain" {
+			if perr != nil || !bytes.Equal(out, plain) {
+				vs.Add("processor-contract:plain", "decryptor returned a plaintext, masking processor returned %d bytes, err %v", len(out), perr)
+			}
+			continue
+		}
+		if perr != nil || !bytes.Equal(out, []byte(pattern)) {
+			vs.Add("processor-contract:"+mode, "decryptor %s: masking processor returned %.40q (err %v), want the pattern %q", mode, out, perr, pattern)
+		}
+	}
 }
 
 // readerCanOpen: the bytes are an envelope the reader decrypts with its own keys.
